@@ -2,7 +2,7 @@
 Every stream function has the signature f(tier, rng, k, n) and yields (stream, bytes-expression, meta)."""
 import os
 
-from .lib import Rng, hx, special_ip6, special_ip4
+from .lib import Rng, hx, special_ip6, special_ip4, class_pairs
 
 HERE = os.path.dirname(os.path.dirname(os.path.abspath(__file__)))
 
@@ -185,6 +185,21 @@ TRAILERS = [b"", b"x", b"5", b" ", b"\r", b"\n", b"\r\n", b"\x00", b"PROXY UNKNO
 
 def valid(tier, rng, k, n):
     rng = rng.fork("v1valid%d" % k)
+    crng = Rng(0xC1A55).fork("v1pairs")
+    for fam in (6, 4):
+        for a, b in class_pairs(crng, fam, k, n):
+            if a == b:
+                continue
+            sp, dp = 1 + crng.below(30000), 30001 + crng.below(30000)
+            if fam == 4:
+                fields = [b"PROXY", b"TCP4", spell_ip4(a), spell_ip4(b), str(sp).encode(), str(dp).encode()]
+            else:
+                ga = [a[2 * i] * 256 + a[2 * i + 1] for i in range(8)]
+                gb = [b[2 * i] * 256 + b[2 * i + 1] for i in range(8)]
+                fields = [b"PROXY", b"TCP6", spell_ip6(ga, crng), spell_ip6(gb, crng), str(sp).encode(), str(dp).encode()]
+            line = b" ".join(fields) + b"\r\n"
+            if len(line) <= 107:
+                yield ("v1-valid", hx(line + crng.choice(TRAILERS)), {"kind": fam, "fields": fields})
     count = (12000 if tier == "quick" else 300000) // n
     for _ in range(count):
         line, info = valid_line(rng)
